@@ -301,11 +301,11 @@ def run(prop, tier, replay):
         vals = vlib._printed(open(mc_results[f]["out"]).read(), "SCN")
         if not vals:
             raise vlib.ToolError(f"TLC generated no scenario ({f})")
-        add(vals, 100 if quick else 700, f, "one history per distinct final state of the exhaustive run")
+        add(vals, 100 if quick else 400, f, "one history per distinct final state of the exhaustive run")
     vals, gstats = fut_gen.result()
     if not vals:
         raise vlib.ToolError("TLC generated no scenario (asbuilt simulation)")
-    add(vals, 130 if quick else 2200, "asbuilt-sim", f"seeded simulation of the as-built model, depth {depth}")
+    add(vals, 130 if quick else 1600, "asbuilt-sim", f"seeded simulation of the as-built model, depth {depth}")
     wit = fut_wit.result()
     wits = vlib._printed(open(wit["out"]).read(), "WIT")
     got = {(d, w["inv"]) for w in wits for d in w["devs"]}
